@@ -19,7 +19,8 @@ inductive ExcClass where
 deriving Repr, DecidableEq, Inhabited
 
 /-- Python's `isinstance(e, cls)` for the harness's exception zoo:
-    E1, E2 = `other 1`, `other 2` (Exception subclasses); BE = `other 3` (BaseException subclass). -/
+    E1, E2 = `other 1`, `other 2` (Exception subclasses); BE = `other 3` (BaseException subclass);
+    E1s = `other 4` (a subclass of E1). -/
 def ExcClass.isException : Exc → Bool
   | .genExit => false
   | .cancelled _ => false
@@ -31,6 +32,7 @@ def ExcClass.matches : ExcClass → Exc → Bool
   | .genExit, .genExit => true
   | .cancelled, .cancelled _ => true
   | .e1, .other 1 => true
+  | .e1, .other 4 => true
   | .e2, .other 2 => true
   | .runtime, .runtime _ => true
   | .oobData, .oobData _ => true
